@@ -8,6 +8,7 @@ package main
 
 import (
 	"fmt"
+	"os"
 	"runtime"
 	"runtime/debug"
 	"strconv"
@@ -1026,9 +1027,12 @@ var cpuPats = []cpuPat{
 	{"b*", "a", []int{0, 250, 500, 1000, 2000}, ""},
 	{"()", "a", []int{0, 250, 500, 1000, 2000}, ""},
 	{"%f[b]", "a", []int{0, 250, 500, 1000, 2000}, ""},
-	{strings.Repeat("b?", 40) + "c", "a", []int{0, 50, 100, 200, 400}, `"b?"x40+"c"`},
-	{strings.Repeat("b-", 40) + "c", "a", []int{0, 50, 100, 200, 400}, `"b-"x40+"c"`},
-	{strings.Repeat("()", 9) + strings.Repeat("%f[a]", 40) + "c", "a", []int{0, 50, 100, 200, 400}, `"()"x9+"%f[a]"x40+"c"`},
+	{strings.Repeat("b?", 40) + "c", "a", []int{0, 250, 500, 1000, 2000}, `"b?"x40+"c"`},
+	{strings.Repeat("b-", 40) + "c", "a", []int{0, 250, 500, 1000, 2000}, `"b-"x40+"c"`},
+	{strings.Repeat("()", 9) + strings.Repeat("%f[a]", 40) + "c", "a", []int{0, 250, 500, 1000, 2000}, `"()"x9+"%f[a]"x40+"c"`},
+	{"a*b", "a", []int{0, 250, 500, 1000, 2000}, ""},
+	{"a+", "a", []int{0, 250, 500, 1000, 2000}, ""},
+	{"b*()a*$", "a", []int{0, 250, 500, 1000, 2000}, ""},
 }
 
 var cpuOps = []string{"find", "match", "gmatch", "gsub"}
@@ -1065,6 +1069,27 @@ func refWork(p *ref.Pattern, s string) uint64 {
 	return w
 }
 
+// necessaryWork is a lower bound on what ANY correct implementation has to do
+// for the call, in subject positions: a search that fails has to rule out every
+// start position (len+1 of them); a search that succeeds has to rule out the
+// start positions before the match and to look at the bytes inside the match it
+// reports (start index + span length); gmatch and gsub walk the whole subject.
+// The model's step counter is NOT such a bound (it also counts positions that
+// a search stopping at its first match never tries), so it is only shown.
+func necessaryWork(p *ref.Pattern, s, op string) uint64 {
+	if op == "gmatch" || op == "gsub" {
+		return uint64(len(s))
+	}
+	pos, m := p.On(s).Search(0)
+	if pos < 0 {
+		if p.Anchor {
+			return 1
+		}
+		return uint64(len(s) + 1)
+	}
+	return uint64(pos + (m.End - pos))
+}
+
 func checkCPU(i uint64, a *acc) {
 	cp := cpuPats[i/uint64(len(cpuOps))]
 	op := cpuOps[i%uint64(len(cpuOps))]
@@ -1076,9 +1101,11 @@ func checkCPU(i uint64, a *acc) {
 	defer func() { e.m.Close() }()
 	used := make([]uint64, len(cp.ns))
 	work := make([]uint64, len(cp.ns))
+	need := make([]uint64, len(cp.ns))
 	for j, n := range cp.ns {
 		s := strings.Repeat(cp.unit, n)
 		work[j] = refWork(p, s)
+		need[j] = necessaryWork(p, s, op)
 		o := runCPU(e, op, s, cp.pat, cpuBig)
 		a.evals++
 		a.mixS(fmt.Sprint(o.Status, o.UsedCPU))
@@ -1123,7 +1150,7 @@ func checkCPU(i uint64, a *acc) {
 				return fmt.Sprintf("cpu op=%s pat=%s unit=%q n=%d limit=%d clause=%s", op, cp.key(), cp.unit, n, k, cl)
 			}
 			det := func() string {
-				return fmt.Sprintf("string.%s(%q x %d, %q) under {cpu=%d}: status %s, UsedCPU %d (UsedCPU with a huge limit: %d; reference matcher steps: %d)\n%s",
+				return fmt.Sprintf("string.%s(%q x %d, %q) under {cpu=%d}: status %s, UsedCPU %d (UsedCPU with a huge limit: %d; model matcher steps: %d)\n%s",
 					op, cp.unit, n, cp.pat, k, o.Status, o.UsedCPU, used[j], work[j], o.Err)
 			}
 			switch o.Status {
@@ -1144,14 +1171,14 @@ func checkCPU(i uint64, a *acc) {
 			}
 		}
 	}
-	// Metering, qualitatively: when the work of the definitional matcher grows
-	// by at least 1000 steps from the shortest to the longest subject, the CPU
-	// charged must grow at all.
+	// Metering, qualitatively: when the work that any correct matcher has to
+	// do (necessaryWork) grows by at least 1000 subject positions from the
+	// shortest to the longest subject, the CPU charged must grow at all.
 	last := len(cp.ns) - 1
-	if work[last] >= work[0]+1000 && used[last] <= used[0] {
+	if need[last] >= need[0]+1000 && used[last] <= used[0] {
 		a.fail("unmetered", fmt.Sprintf("cpu op=%s pat=%s unit=%q clause=unmetered", op, cp.key(), cp.unit), func() string {
-			return fmt.Sprintf("string.%s(%q x n, %q): n=%v reference matcher steps=%v but UsedCPU=%v: the work is not charged",
-				op, cp.unit, cp.pat, cp.ns, work, used)
+			return fmt.Sprintf("string.%s(%q x n, %q): n=%v necessary work (start positions ruled out + bytes in the match)=%v but UsedCPU=%v: the work is not charged (model steps, for information: %v)",
+				op, cp.unit, cp.pat, cp.ns, need, used, work)
 		})
 	}
 }
@@ -1199,7 +1226,7 @@ func main() {
 			"gmatch with a pattern starting with '^' is skipped (the manual only says it does not anchor)",
 			"init = 0 and init < -len are read as position 1, init > len+1 as 'no match' (the only positions §6.4 defines)",
 			"subjects are ASCII only; character classes are those of the C locale",
-			"CPU: UsedCPU is compared with the reference step count only qualitatively (ok => used <= limit; killed => the unlimited run used >= limit/2; reference work growing by >= 1000 steps => used CPU grows)",
+			"CPU: qualitative only (ok => used <= limit; killed => the unlimited run used >= limit/2; when the work any correct matcher must do - start positions ruled out + bytes inside the reported match, whole subject for gmatch/gsub - grows by >= 1000 positions, used CPU must grow)",
 		},
 		Families: func(tier string) []*core.Family {
 			b := boundsFor(tier)
@@ -1217,6 +1244,9 @@ func main() {
 					if goapi {
 						budget = 40
 					}
+				}
+				if os.Getenv("C15_NOBUDGET") != "" {
+					budget = 0 // complete run on a box that is known to be slow
 				}
 				fams = append(fams, &core.Family{
 					Name: name, Size: nSeq(maxTok), BudgetSeconds: budget,
